@@ -10,8 +10,12 @@
    (d) a padding frame only ever ends a term, the active term count equals the number of filled terms
        and the three tails carry the term ids count, count-2, count-1 (each filled term rotated exactly once);
    (e) nobody panicked; a refused offer got AdminAction / BackPressured / NotConnected / MaxPositionExceeded / TooLong. *)
-Require Import V.Base.MachineInt V.Generated.GenConsts V.Model.LogBase V.Model.Descriptor V.Model.Sched
-               V.Model.AppenderThreads.
+Require Import V.Base.MachineInt.
+Require Import V.Generated.GenConsts.
+Require Import V.Model.LogBase.
+Require Import V.Model.Descriptor.
+Require Import V.Model.Sched.
+Require Import V.Model.AppenderThreads.
 Open Scope Z_scope.
 
 Definition words := list (Z * Z).
